@@ -285,7 +285,7 @@ class LengthHarness(Harness):
   RES = [((15, 32), (1920, 1080)), ((10, 20), (640, 480)), ((1, 1), (1, 1)), ((23, 40), (1920, 1080))]
 
   def partitions(self, tier):
-    return [{"res": r, "dep": d} for r in range(len(self.RES)) for d in ("fontsize", "lineheight", "linepadding", "outline", "shadow", "rubyreserve", "rubytext")]
+    return [{"res": r, "dep": d} for r in range(len(self.RES)) for d in ("fontsize", "lineheight", "linepadding", "outline", "shadow", "rubyreserve", "rubytext", "animated")]
 
   def body(self, ex, params):
     (rows, cols), (w, h) = self.RES[params["res"]]
@@ -327,6 +327,9 @@ class LengthHarness(Harness):
     if dep != "fontsize" and dep != "rubytext":
       du = UNITS[ex.choice("dep_unit", len(UNITS))]
       dv = ex.real("dep_val", 0, 1000)
+      if dep == "animated":
+        # the value comes only from an active set animation (no static value on the element)
+        els["p"].add_animation_step(model.DiscreteAnimationStep(SP.LineHeight, None, None, L(dv, du)))
       if dep == "lineheight":
         els["p"].set_style(SP.LineHeight, L(dv, du))
       elif dep == "linepadding":
@@ -379,7 +382,7 @@ class LengthHarness(Harness):
       check_len(rr.length, (efs[0] / 2, efs[1]), "rubyReserve default length")
       return
     exp = ref_len(dv, du, efs, efs, c_ref, px_ref)
-    if dep == "lineheight":
+    if dep in ("lineheight", "animated"):
       check_len(got["p"].get_style(SP.LineHeight), exp, "lineHeight")
     elif dep == "linepadding":
       check_len(got["p"].get_style(SP.LinePadding), exp, "linePadding")
